@@ -334,6 +334,11 @@ pub fn apply(root: &mut Val, elem: &Ty, path: &[usize], m: &TreeMut) -> bool {
             }
             *x = 0
         }
+        (TreeMut::Zero, Val::Bool(b)) => *b = 0,
+        (TreeMut::Zero, Val::U8(b)) => *b = 0,
+        (TreeMut::Zero, Val::U32(b)) => *b = 0,
+        (TreeMut::Ones, Val::Bool(b)) => *b = 1,
+        (TreeMut::Ones, Val::U32(b)) => *b = u32::MAX,
         (TreeMut::Zero, Val::B16(x)) => *x = [0; 16],
         (TreeMut::Zero, Val::Arr32(x)) => *x = [0; 32],
         (TreeMut::Zero, Val::Bytes(x)) if !x.is_empty() => x.iter_mut().for_each(|b| *b = 0),
